@@ -164,6 +164,10 @@ int main(void) {
     } else if (!strcmp(op, "get") && n == 2) {
       void *v = hashmap_get(map, key);
       if (v) printf("get %zu\n", (size_t)v); else printf("get NULL\n");
+    } else if (!strcmp(op, "rehash") && n == 1) {
+      // rehash() itself, on whatever state the history built (it is static; this file #includes hashmap.c)
+      if (!map->buckets) printf("bad-op\n");
+      else { rehash(map); printf("rehash "); show_state(map); }
     } else if (!strcmp(op, "reset") && n == 1) {
       map = calloc(1, sizeof(HashMap));
       printf("reset\n");
